@@ -14,7 +14,7 @@ GNext ==
   \/ \E v \in Vars, l, u \in Vals : AddVar(v, l, u) /\ h' = Append(h, <<"add", v, l, u>>)
   \/ \E v \in Vars, x \in Vals : QueueFix(v, x) /\ h' = Append(h, <<"fix", v, x>>)
   \/ \E v \in Vars, x \in Vals : QueueLB(v, x) /\ h' = Append(h, <<"lb", v, x>>)
-  \/ \E Dm \in {CreatedSet} \cup {{v} : v \in CreatedSet} : \E c \in [Dm -> {-1, 0, 2}], k \in Offsets, s \in {"minimize", "maximize"} :
+  \/ \E Dm \in {CreatedSet} \cup {{v} : v \in CreatedSet} \cup {{}} : \E c \in [Dm -> {-1, 0, 2}], k \in Offsets, s \in {"minimize", "maximize"} :
         SetObjective(c, k, s) /\ h' = Append(h, <<"obj", PairsOf(c), s, k>>)
   \/ Optimize /\ h' = Append(h, <<"opt">>)
   \/ \E S \in (SUBSET Vars) \ {{}} : GetValues(S) /\ h' = Append(h, <<"get", SetToSeq(S)>>)
